@@ -16,6 +16,8 @@
 
 package router
 
+import "runtime/debug"
+
 // Hooks installed by a deterministic simulator. All are nil by default, in which case the
 // instrumented code behaves exactly like the uninstrumented one.
 var (
@@ -28,6 +30,12 @@ var (
 	// VerifPoolHook is called with op "get" right after a packet left the pool and with op "put"
 	// right before a packet is returned to it (ownership tracking).
 	VerifPoolHook func(op string, p *Packet)
+	// VerifPanicHook receives the panic value and stack of a data-path goroutine that panicked. The
+	// goroutine then ends instead of taking the whole (simulation) process down.
+	VerifPanicHook func(v any, stack []byte)
+	// VerifQueuesHook is called once by Run with the processor queues and the slow-path queues, so
+	// that the simulator can observe their lengths.
+	VerifQueuesHook func(procQs, slowQs []chan *Packet)
 )
 
 // VerifYield marks a synchronisation point of the data path.
@@ -53,5 +61,22 @@ func verifPoolGet(p *Packet) {
 func verifPoolPut(p *Packet) {
 	if f := VerifPoolHook; f != nil {
 		f("put", p)
+	}
+}
+
+// VerifRecover is deferred by every long-lived data-path goroutine right after log.HandlePanic (so
+// that it runs first). Without an installed VerifPanicHook it does nothing and the panic proceeds
+// to log.HandlePanic as usual.
+func VerifRecover() {
+	if f := VerifPanicHook; f != nil {
+		if v := recover(); v != nil {
+			f(v, debug.Stack())
+		}
+	}
+}
+
+func verifQueues(procQs, slowQs []chan *Packet) {
+	if f := VerifQueuesHook; f != nil {
+		f(procQs, slowQs)
 	}
 }
